@@ -154,6 +154,9 @@ func TestCQRSDispatch(t *testing.T) {
 		ngName, ng := genNameGen(t)
 		ackUnknown := rapid.Bool().Draw(t, "ackOnUnknownEvent")
 		ackCmdErr := rapid.Bool().Draw(t, "ackCommandHandlingErrors")
+		useOnHandle := rapid.Bool().Draw(t, "onHandleHook")
+		var hookProblems []string
+		var hookCalls int
 		fam := jsonTypes
 		var marshaler cqrs.CommandEventMarshaler = cqrs.JSONMarshaler{GenerateName: ng}
 		if useProto {
@@ -228,6 +231,18 @@ func TestCQRSDispatch(t *testing.T) {
 				},
 				Marshaler:                marshaler,
 				AckCommandHandlingErrors: ackCmdErr,
+				OnHandle: func() cqrs.CommandProcessorOnHandleFn {
+					if !useOnHandle {
+						return nil
+					}
+					return func(p cqrs.CommandProcessorOnHandleParams) error {
+						hookCalls++
+						if p.Message == nil || p.Handler == nil || p.Command == nil || p.CommandName != marshaler.NameFromMessage(p.Message) {
+							hookProblems = append(hookProblems, fmt.Sprintf("OnHandle params incomplete: name %q msg %v", p.CommandName, p.Message != nil))
+						}
+						return p.Handler.Handle(p.Message.Context(), p.Command)
+					}
+				}(),
 			})
 			if err != nil {
 				t.Fatalf("NewCommandProcessorWithConfig: %v", err)
@@ -249,6 +264,18 @@ func TestCQRSDispatch(t *testing.T) {
 				},
 				Marshaler:         marshaler,
 				AckOnUnknownEvent: ackUnknown,
+				OnHandle: func() cqrs.EventProcessorOnHandleFn {
+					if !useOnHandle {
+						return nil
+					}
+					return func(p cqrs.EventProcessorOnHandleParams) error {
+						hookCalls++
+						if p.Message == nil || p.Handler == nil || p.Event == nil || p.EventName != marshaler.NameFromMessage(p.Message) {
+							hookProblems = append(hookProblems, fmt.Sprintf("OnHandle params incomplete: name %q msg %v", p.EventName, p.Message != nil))
+						}
+						return p.Handler.Handle(p.Message.Context(), p.Event)
+					}
+				}(),
 			})
 			if err != nil {
 				t.Fatalf("NewEventProcessorWithConfig: %v", err)
@@ -270,6 +297,18 @@ func TestCQRSDispatch(t *testing.T) {
 				},
 				Marshaler:         marshaler,
 				AckOnUnknownEvent: ackUnknown,
+				OnHandle: func() cqrs.EventGroupProcessorOnHandleFn {
+					if !useOnHandle {
+						return nil
+					}
+					return func(p cqrs.EventGroupProcessorOnHandleParams) error {
+						hookCalls++
+						if p.Message == nil || p.Handler == nil || p.Event == nil || p.EventName != marshaler.NameFromMessage(p.Message) || p.GroupName == "" {
+							hookProblems = append(hookProblems, fmt.Sprintf("OnHandle params incomplete: name %q group %q", p.EventName, p.GroupName))
+						}
+						return p.Handler.Handle(p.Message.Context(), p.Event)
+					}
+				}(),
 			})
 			if err != nil {
 				t.Fatalf("NewEventGroupProcessorWithConfig: %v", err)
@@ -331,7 +370,7 @@ func TestCQRSDispatch(t *testing.T) {
 
 		nItems := rapid.IntRange(1, 6).Draw(t, "stream")
 		interesting := false
-		canon := fmt.Sprintf("%s|proto=%v|%s|%v|%v|%v|%v|", kind, useProto, ngName, ackUnknown, ackCmdErr, hs, groupOf)
+		canon := fmt.Sprintf("%s|proto=%v|%s|%v|%v|%v|%v|hook=%v|", kind, useProto, ngName, ackUnknown, ackCmdErr, hs, groupOf, useOnHandle)
 		for n := 0; n < nItems; n++ {
 			it := item{Kind: rapid.SampledFrom([]int{0, 0, 0, 1, 2, 3}).Draw(t, "itemKind"), Fail: map[int]bool{}}
 			it.Type = rapid.IntRange(0, 2).Draw(t, "itemType")
@@ -427,6 +466,7 @@ func TestCQRSDispatch(t *testing.T) {
 			}
 			// deliver
 			calls = nil
+			hookCalls = 0
 			failNow = it.Fail
 			sub := subsByName[targets[it.Target]]
 			if !sub.WaitSubs(1, lib.Live) {
@@ -458,6 +498,9 @@ func TestCQRSDispatch(t *testing.T) {
 			}
 			if acked != wantAck {
 				t.Fatalf("violation: message acked=%v, model says %v\n%s", acked, wantAck, desc)
+			}
+			if useOnHandle && (hookCalls != len(wantInvoked) || len(hookProblems) > 0) {
+				t.Fatalf("violation: OnHandle ran %d times for %d handler invocations; problems %v\n%s", hookCalls, len(wantInvoked), hookProblems, desc)
 			}
 			canon += fmt.Sprintf("%d.%d.%d.%v;", it.Kind, it.Type, it.Target, it.Fail)
 		}
